@@ -587,7 +587,7 @@ static void check_long_history(const std::string & root, const std::string & ds,
     {
       Seq r;
       r.phase = 4711;
-      r.horizon = (size_t)1 << 40;
+      r.horizon = (size_t)200000000; // (a sampler that stops accepting must end as a violation, not as a hang)
       double e1, e2;
       try {
         for (long k = 0; k < nshots; k++) used.shoot_e1_e2(r, e1, e2);
